@@ -114,13 +114,49 @@ Qed.
 
 End Main.
 
-(* ---------- histories without a graceful restart never write a snapshot, so they are guarded ---------- *)
-Section NoSnapshot.
+(* ---------- the snapshot is consumed by the initialisation that reads it ----------
+   InitializeRunningEventFilter deletes the stored snapshot when it reads it (non-empty chain), so a snapshot
+   on disk is either the one written on an EMPTY chain (next = 0, window 0: it records nothing and is good
+   for every chain) or it was written by the graceful shutdown of the previous process and the running
+   filter has not been initialised since (chain unchanged). Hence [guarded] holds for EVERY history. *)
+Section Snapshot.
 Variable W : N.
+Hypothesis Wpos : 0 < W.
 Variable member : list bkey -> bkey -> bool.
 
-Lemma ensure_snapshot s : snapshot (ensure W s) = snapshot s.
-Proof. unfold ensure. destruct (running s); auto. destruct (init_rf W s). reflexivity. Qed.
+Definition snap_inv (s : state) : Prop :=
+  match snapshot s with
+  | None => True
+  | Some (w, nx) =>
+      (nx = 0 /\ w_from w = 0) \/
+      (running s = Uninit /\ nx = lenN (chain s) /\ w_from w = aligned W nx)
+  end.
+
+(* after the lazy initialisation only the empty-chain snapshot can be left *)
+Definition snapB (s : state) : Prop :=
+  snapshot s = None \/ exists w, snapshot s = Some (w, 0) /\ w_from w = 0.
+
+Lemma ensure_snapB s : snap_inv s -> snapB (ensure W s).
+Proof.
+  unfold snap_inv, snapB, ensure. intros H.
+  destruct (running s) eqn:Er.
+  - destruct (init_rf W s) as [p r]. simpl. unfold init_snap.
+    destruct (chain s) as [| b0 ch0] eqn:Ech; [| left; auto].
+    destruct (snapshot s) as [[w nx] |]; [| left; auto].
+    destruct H as [[-> Hw] | [_ [Hn Hw]]]; right; exists w.
+    + auto.
+    + unfold lenN in Hn. simpl in Hn. subst nx. split; auto.
+  - destruct (snapshot s) as [[w1 nx1] |]; [| left; auto].
+    destruct H as [[-> Hw] | [Hu _]]; [right; exists w1; auto | congruence].
+  - destruct (snapshot s) as [[w1 nx1] |]; [| left; auto].
+    destruct H as [[-> Hw] | [Hu _]]; [right; exists w1; auto | congruence].
+Qed.
+
+Lemma snapB_inv s s' : snap_inv s -> snapshot s' = snapshot (ensure W s) -> snap_inv s'.
+Proof.
+  intros H E. unfold snap_inv. rewrite E.
+  destruct (ensure_snapB s H) as [-> | [w [-> Hw]]]; auto.
+Qed.
 
 Lemma cache_load_snapshot s ws : snapshot (cache_load s ws) = snapshot s.
 Proof.
@@ -136,51 +172,117 @@ Proof.
   rewrite IH. apply cache_load_snapshot.
 Qed.
 
-Lemma step_snapshot s o : o <> Restart true -> snapshot (fst (step W member s o)) = snapshot s.
+Lemma step_snap_inv s o : inv W s -> snap_inv s -> snap_inv (fst (step W member s o)).
 Proof.
-  intros Hne. destruct o as [b | | g | ws | flt from to chunk limit tok]; simpl.
-  - unfold do_store. destruct (running (ensure W s)) eqn:Er; simpl; try apply ensure_snapshot.
-    destruct (rf_insert _ _ _ _ _) as [[[p' w'] nx'] |]; simpl; apply ensure_snapshot.
+  intros Hi H. destruct o as [b | | g | ws | flt from to chunk limit tok]; simpl.
+  - unfold do_store. destruct (running (ensure W s)) eqn:Er; simpl; try (apply (snapB_inv s); auto; fail).
+    destruct (rf_insert _ _ _ _ _) as [[[p' w'] nx'] |]; simpl; apply (snapB_inv s); auto.
   - unfold do_revert. destruct (chain s); auto.
-    destruct (running (ensure W s)) eqn:Er; simpl; try apply ensure_snapshot.
+    destruct (running (ensure W s)) eqn:Er; simpl; try (apply (snapB_inv s); auto; fail).
     destruct (next =? w_from w).
-    + destruct (lookup _ _); simpl; try apply ensure_snapshot.
-      destruct (w_clear _ _ _); simpl; apply ensure_snapshot.
-    + destruct (w_clear _ _ _); simpl; apply ensure_snapshot.
-  - destruct g; [congruence | reflexivity].
-  - reflexivity.
+    + destruct (lookup _ _); simpl; try (apply (snapB_inv s); auto; fail).
+      destruct (w_clear _ _ _); simpl; apply (snapB_inv s); auto.
+    + destruct (w_clear _ _ _); simpl; apply (snapB_inv s); auto.
+  - destruct g.
+    + (* graceful: the snapshot just written describes the chain, the filter is uninitialised *)
+      unfold do_restart. unfold inv in Hi.
+      destruct Hi as [_ [_ [w [nx [Hr [Hnx [Hf _]]]]]]]. rewrite Hr.
+      unfold snap_inv. simpl. right. repeat split; auto.
+    + unfold do_restart, snap_inv in *. simpl.
+      destruct (snapshot s) as [[w nx] |]; auto.
+      destruct H as [H | [_ [Hn Hw]]]; [left; auto | right; auto].
+  - unfold do_forget, set_cache, snap_inv in *. simpl. exact H.
   - unfold do_query. destruct (chain s); auto. destruct (_ <? _); auto.
-    destruct (running (ensure W s)) eqn:Er; simpl; try apply ensure_snapshot.
+    destruct (running (ensure W s)) eqn:Er; simpl; try (apply (snapB_inv s); auto; fail).
     destruct (scanq _ _ _ _ _ _ _ _ _) as [r stop]. simpl.
-    rewrite cache_after_snapshot. apply ensure_snapshot.
+    apply (snapB_inv s); auto. apply cache_after_snapshot.
 Qed.
 
 Lemma disk_ok_no_snapshot s : snapshot s = None -> disk_ok_b W s = true.
 Proof. intros H. unfold disk_ok_b. rewrite H. destruct (chain s); reflexivity. Qed.
 
-Lemma guarded_no_snapshot : forall ops s,
-  snapshot s = None -> (forall o, In o ops -> o <> Restart true) -> guarded W member s ops = true.
+Lemma disk_ok_empty_snapshot s w : snapshot s = Some (w, 0) -> w_from w = 0 -> disk_ok_b W s = true.
 Proof.
-  induction ops as [| o ops IH]; intros s Hs Hall; simpl; auto.
-  apply andb_true_iff. split.
-  - destruct o; auto. destruct graceful; auto. destruct (running s); auto.
-    apply disk_ok_no_snapshot. auto.
-  - apply IH.
-    + rewrite step_snapshot; auto. apply Hall. simpl. auto.
-    + intros o' Ho'. apply Hall. simpl. auto.
+  intros H Hw. unfold disk_ok_b. rewrite H. destruct (chain s); auto.
+  destruct (_ || _); auto. unfold snap_good_b, covers_b, w_to. rewrite Hw. simpl.
+  rewrite andb_true_r. apply N.leb_le. lia.
 Qed.
+
+Lemma guarded_from : forall ops s, inv W s -> snap_inv s -> guarded W member s ops = true.
+Proof.
+  induction ops as [| o ops IH]; intros s Hi H; simpl; auto.
+  assert (Hchk : (match o, running s with
+                  | Restart false, Ready _ _ => disk_ok_b W s
+                  | _, _ => true
+                  end) = true).
+  { destruct o; auto. destruct graceful; auto. destruct (running s) eqn:Er; auto.
+    unfold snap_inv in H. destruct (snapshot s) as [[w0 nx] |] eqn:Es.
+    - destruct H as [[-> Hw] | [Hu _]]; [| congruence]. eapply disk_ok_empty_snapshot; eauto.
+    - apply disk_ok_no_snapshot; auto. }
+  rewrite Hchk. simpl. apply IH.
+  - apply step_inv; auto.
+  - apply step_snap_inv; auto.
+Qed.
+
+(* [guarded] is no hypothesis any more: it holds for every history, graceful restarts included *)
+Lemma guarded_always ops : guarded W member init_state ops = true.
+Proof. apply guarded_from; [apply inv_init; auto | unfold snap_inv; simpl; auto]. Qed.
 
 Lemma guarded_without_graceful ops :
   (forall o, In o ops -> o <> Restart true) -> guarded W member init_state ops = true.
-Proof. apply guarded_no_snapshot. reflexivity. Qed.
+Proof. intros _. apply guarded_always. Qed.
 
-End NoSnapshot.
+(* in every reachable state the only snapshot that can be on disk while the filter is initialised is the
+   empty-chain one; otherwise there is none *)
+Lemma reachable_snap_inv : forall ops s, inv W s -> snap_inv s -> snap_inv (run W member s ops).
+Proof.
+  induction ops as [| o ops IH]; intros s Hi H; simpl; auto.
+  apply IH; [| apply step_snap_inv; auto].
+  apply step_inv; auto.
+  pose proof (guarded_from [o] s Hi H) as Hg. simpl in Hg. apply andb_true_iff in Hg. apply Hg.
+Qed.
+
+Lemma reachable_snapshot_consumed ops :
+  snapB (ensure W (run W member init_state ops)).
+Proof.
+  apply ensure_snapB. apply reachable_snap_inv; [apply inv_init; auto | unfold snap_inv; simpl; auto].
+Qed.
+
+End Snapshot.
+
+(* ---------- the headline lemmas at full strength: every history ---------- *)
+Section Full.
+Variable W : N.
+Hypothesis Wpos : 0 < W.
+Variable member : list bkey -> bkey -> bool.
+Hypothesis bloom_sound : forall ks k, In k ks -> member ks k = true.
+
+Lemma reachable_rinv_all ops : rinv W (ensure W (run W member init_state ops)).
+Proof. apply reachable_rinv; auto. apply guarded_always; auto. Qed.
+
+Lemma reachable_cache_fresh_all ops : cache_fresh (ensure W (run W member init_state ops)).
+Proof. apply (reachable_cache_fresh W Wpos member ops). apply guarded_always; auto. Qed.
+
+Lemma no_false_negative_all ops :
+  let s := ensure W (run W member init_state ops) in
+  forall flt n, n < lenN (chain s) -> block_matches (chain s) flt n <> [] ->
+    cand_item W member s flt n = Some true.
+Proof. apply no_false_negative_lemma; auto. apply guarded_always; auto. Qed.
+
+Lemma paging_concat_all ops :
+  let s := ensure W (run W member init_state ops) in
+  chain s <> [] ->
+  forall flt from to chunk limit fuel, 0 < chunk ->
+  (length (chain s) + length (filter_spec (chain s) flt from to) < fuel)%nat ->
+  pages W member fuel s flt from to chunk limit (0, 0) = Some (filter_spec (chain s) flt from to).
+Proof. apply paging_concat_lemma; auto. apply guarded_always; auto. Qed.
+
+End Full.
 
 Lemma reachable_keys W (Wpos : 0 < W) member ops :
-  guarded W member init_state ops = true ->
   let s := ensure W (run W member init_state ops) in
   forall k pw, lookup k (persisted s) = Some pw -> k mod W = 0 /\ k + W <= lenN (chain s).
-Proof. intros Hg s. destruct (reachable_rinv W Wpos member ops Hg) as [_ [Hk _]]. exact Hk. Qed.
+Proof. intros s. destruct (reachable_rinv_all W Wpos member ops) as [_ [Hk _]]. exact Hk. Qed.
 
 (* ---------- starknet_getEvents: a page never leaves the resolved range ---------- *)
 Lemma rpc_page_within_range W (Wpos : 0 < W) member s flt fb tb chunk limit tok s' evs t from to :
